@@ -85,10 +85,18 @@ def run_real(case: dict) -> list[str]:
     return lines
 
 
+BIG_SKIPPED = [0]
+
+
 def model_input(case: dict, real: list[str]):
     head = sers.model_head(case["spec"], case["path"], case.get("hint", 0))
     aux = _aux.get(core.case_digest(case))
     if head is None or aux is None:
+        return None
+    if (sers.limit_of(case["spec"]) or 0) > 256 and (int(core.case_digest(case)[:4], 16) % 4 or len(aux["chunks"]) > 12):
+        # the Lean separator framers are quadratic in the frame length (per read): the big-limit family goes through the model
+        # in one case out of four, and only when the stream is read in at most 12 pieces (the oracle judges all of them)
+        BIG_SKIPPED[0] += 1
         return None
     op = "feed" if case["path"] == "copy" else "fill"
     return head, [f"{op} {core.hexs(c)}" for c in aux["chunks"]]
@@ -227,6 +235,13 @@ def _payload(rng, spec: dict, n: int, bad: bool) -> bytes:
     """a payload of exactly n bytes that does not complete the separator early"""
     sep = sers.separator(spec)
     k = sers.recv_spec(spec)["k"]
+    if n > 64:
+        # long payloads: an alphabet without the last byte of the separator can never complete it (no retry loop)
+        alphabet = bytes(c for c in set(sep + b"abxyz") if c != sep[-1] and c != 0xff)
+        p = bytes(rng.choice(alphabet) for _ in range(n))
+        if bad:
+            p = b"\xff" + p[1:]
+        return p
     for _ in range(200):
         if k == "autosep":
             alphabet = bytes(set(sep)) + b"ab"
@@ -279,7 +294,36 @@ def _terminator_cuts():
                                        "frames": frames, "cuts": [base + j] + tail if base + j else tail, "hint": 4}
 
 
+def _gen_big_limit_case(rng) -> dict:
+    """limits far above the small ones of the main family (and above the 1024-byte floor some buffers have), size hints below
+    and above the limit: safe frames of every length up to limit - |sep| - 1 (in particular longer than max(hint, 1024)),
+    band / oversized frames, coarse and fine reads.  A receive buffer sized after the hint instead of the limit shows here."""
+    lim = rng.choice([1100, 1500, 2048, 3000, 4096])
+    if rng.random() < 0.5:
+        spec = {"k": "line", "newline": rng.choice(["LF", "CRLF"]), "keep_end": rng.random() < 0.3, "encoding": "ascii", "limit": lim}
+    else:
+        spec = {"k": "autosep", "sep": rng.choice(SEPS), "limit": lim, "check": True}
+    sep = sers.separator(spec)
+    safe_max = lim - len(sep) - 1
+    frames = []
+    for _ in range(rng.randint(1, 3)):
+        r = rng.random()
+        if r < 0.6:
+            n = rng.choice([safe_max, safe_max - 1, rng.randint(1025, safe_max), rng.randint(1, safe_max), 1024, 1023 - len(sep), 1024 - len(sep)])
+            frames.append({"kind": "ok", "payload": _payload(rng, spec, max(0, min(n, safe_max)), False).hex()})
+        elif r < 0.8:
+            frames.append({"kind": "band", "payload": _payload(rng, spec, rng.randint(lim - len(sep), lim + len(sep)), False).hex()})
+        else:
+            frames.append({"kind": "big", "payload": _payload(rng, spec, rng.randint(lim + len(sep) + 1, lim + len(sep) + 40), False).hex()})
+    frames.append({"kind": "ok", "payload": _payload(rng, spec, 3, False).hex()})
+    cuts = [rng.choice([1000, 4096, 65536, 1024, 1023, 1025, 100, lim, lim - 1, lim + 1, 7]) for _ in range(rng.randint(1, 4))]
+    return {"spec": spec, "path": rng.choice(["copy", "buffered", "buffered"]), "frames": frames, "cuts": cuts,
+            "hint": rng.choice([1, 64, 1023, 1024, 1025, 2048, lim, lim + 1, 16384])}
+
+
 def _gen_case(rng, tier: str) -> dict:
+    if rng.random() < 0.05:
+        return _gen_big_limit_case(rng)
     k = rng.choice(["line", "line", "autosep", "autosep"])
     lim = rng.choice([6, 8, 10, 12, 16, 32])
     if k == "line":
@@ -341,6 +385,11 @@ def corpus() -> list[dict]:
     out.append({"spec": {"k": "autosep", "sep": "616162", "limit": 8, "check": True}, "path": "buffered",
                 "frames": [{"kind": "bad", "payload": "ff61"}, {"kind": "band", "payload": "6262626262"}, {"kind": "ok", "payload": "62"}],
                 "cuts": [1], "hint": 4})
+    # a safe 3000-byte line under limit 4096 with a small size hint, then a short one (buffer sized after the hint?)
+    for hint in (64, 2048):
+        out.append({"spec": {"k": "line", "newline": "LF", "keep_end": False, "encoding": "ascii", "limit": 4096}, "path": "buffered",
+                    "frames": [{"kind": "ok", "payload": (b"a" * 3000).hex()}, {"kind": "ok", "payload": b"xyz".hex()}],
+                    "cuts": [4096], "hint": hint})
     out += jraw.corpus_stream_cases()  # ---- raw JSON framer ----
     return out
 
@@ -382,7 +431,8 @@ def after_batch() -> None:
 
 # ---- raw JSON framer ----
 def extra_coverage(stats) -> dict:
-    return {"model_runs_by_framer": dict(sorted(sers.MODEL_RUNS.items())), "retained_packets": dict(sd.RETAINED)}
+    return {"model_runs_by_framer": dict(sorted(sers.MODEL_RUNS.items())), "retained_packets": dict(sd.RETAINED),
+            "big_limit_cases_judged_by_the_oracle_only": BIG_SKIPPED[0]}
 # ---- end raw JSON framer ----
 
 
